@@ -441,7 +441,7 @@ static int export_schema(flatcc_builder_t *B, fb_options_t *opts, fb_schema_t *S
  *
  * Field sorting is done on the finished buffer.
  */
-static void sort_objects(void *buffer)
+static void sort_objects(void *buffer, int with_size)
 {
     size_t i;
     reflection_Schema_table_t schema;
@@ -450,6 +450,10 @@ static void sort_objects(void *buffer)
     reflection_Field_vec_t fields;
     reflection_Field_mutable_vec_t mfields;
 
+    if (with_size) {
+        /* The root offset follows the length prefix. */
+        buffer = (uint8_t *)buffer + sizeof(flatbuffers_uoffset_t);
+    }
     schema = reflection_Schema_as_root(buffer);
     objects = reflection_Schema_objects(schema);
     for (i = 0; i < reflection_Object_vec_len(objects); ++i) {
@@ -517,18 +521,25 @@ static void close_file(FILE *fp)
 void *fb_codegen_bfbs_to_buffer(fb_options_t *opts, fb_schema_t *S, void *buffer, size_t *size)
 {
     flatcc_builder_t builder, *B;
+    void *ret = 0;
+    size_t need;
 
     B = &builder;
     flatcc_builder_init(B);
-    export_schema(B, opts, S);
-    if (!flatcc_builder_copy_buffer(B, buffer, *size)) {
+    if (export_schema(B, opts, S)) {
+        *size = 0;
         goto done;
     }
-    sort_objects(buffer);
+    need = flatcc_builder_get_buffer_size(B);
+    /* A buffer that is too small is reported to the caller, who learns the required size. */
+    if (need <= *size && flatcc_builder_copy_buffer(B, buffer, *size)) {
+        sort_objects(buffer, opts->bgen_length_prefix);
+        ret = buffer;
+    }
+    *size = need;
 done:
-    *size = flatcc_builder_get_buffer_size(B);
     flatcc_builder_clear(B);
-    return buffer;
+    return ret;
 }
 
 /*
@@ -550,7 +561,7 @@ void *fb_codegen_bfbs_alloc_buffer(fb_options_t *opts, fb_schema_t *S, size_t *s
     if (!(buffer = flatcc_builder_finalize_buffer(B, size))) {
         goto done;
     }
-    sort_objects(buffer);
+    sort_objects(buffer, opts->bgen_length_prefix);
 done:
     flatcc_builder_clear(B);
     return buffer;
